@@ -277,7 +277,7 @@ pub fn pattern_with(rng: &mut Rng, forced: Option<u64>) -> (Pos, &'static str) {
     for _ in 0..200 {
         let which = match forced {
             Some(k) => k,
-            None => rng.below(18),
+            None => rng.below(19),
         };
         let mut p = Pos::empty();
         let name: &'static str;
@@ -657,6 +657,51 @@ pub fn pattern_with(rng: &mut Rng, forced: Option<u64>) -> (Pos, &'static str) {
                 place_random(&mut p, rng, Kind::K, Col::W);
                 place_random(&mut p, rng, Kind::K, Col::B);
                 p.stm = if rng.chance(1, 2) { Col::W } else { Col::B };
+            }
+            18 => {
+                // a slider whose rays are (almost) completely occupied: the densest occupancies of the attack tables
+                name = "slider_fully_blocked";
+                let s0 = rng.below(64) as u8;
+                let rookish = rng.chance(1, 2);
+                let kind = if rng.chance(1, 2) { Kind::Q } else if rookish { Kind::R } else { Kind::B };
+                let me = if rng.chance(1, 2) { Col::W } else { Col::B };
+                p.sq[s0 as usize] = Some((kind, me));
+                let dirs: &[(i32, i32)] = if rookish { &[(1, 0), (-1, 0), (0, 1), (0, -1)] } else { &[(1, 1), (1, -1), (-1, 1), (-1, -1)] };
+                let skip = rng.below(3); // leave up to two ray squares empty
+                let mut left = skip;
+                let mut pawns = [0usize; 2];
+                for (df, dr) in dirs.iter() {
+                    let (mut f, mut r) = (file_of(s0) + df, rank_of(s0) + dr);
+                    while let Some(t) = mk(f, r) {
+                        if left > 0 && rng.chance(1, 6) {
+                            left -= 1;
+                        } else if p.sq[t as usize].is_none() {
+                            let c = if rng.chance(2, 3) { me } else { me.other() };
+                            let mut k = *rng.pick(&[Kind::P, Kind::P, Kind::N, Kind::B, Kind::R]);
+                            if k == Kind::P && (rank_of(t) == 0 || rank_of(t) == 7 || pawns[c.idx()] >= 8) {
+                                k = Kind::N;
+                            }
+                            if k == Kind::P {
+                                pawns[c.idx()] += 1;
+                            }
+                            if p.men(c) < 15 {
+                                p.sq[t as usize] = Some((k, c));
+                            }
+                        }
+                        f += df;
+                        r += dr;
+                    }
+                }
+                place_random(&mut p, rng, Kind::K, Col::W);
+                place_random(&mut p, rng, Kind::K, Col::B);
+                p.stm = me;
+                if !kings_apart(&p) || p.strict_validity_error().is_some() {
+                    p.stm = me.other();
+                    if !kings_apart(&p) || p.strict_validity_error().is_some() {
+                        continue;
+                    }
+                }
+                return (p, name);
             }
             12 => {
                 // the side to move is in check by a distant slider and has (almost) a single reply of a chosen
